@@ -329,6 +329,13 @@ package tree
 //@   trusted applies caller supplied filter closures; treated as a function of the slice and the filters
 //@   pure
 
+// PathKey writes every element as <length>_<element>: injective on element sequences, and the key of an element-wise
+// prefix is a string prefix (string contents are outside the solver's theory: both facts are covered by the bounded
+// stand-in tree_paths_test.go, here PathKey is a function of its argument)
+//@ func PathKey
+//@   trusted deterministic string construction; treated as a function of the path
+//@   pure
+
 //@ func pathHasPrefix
 //@   props C08 C11
 //@   modifies nothing
@@ -339,7 +346,7 @@ package tree
 //@   props C08
 //@   requires c != nil && c.intendedStoreIndex != nil
 //@   let idx = c.intendedStoreIndex
-//@   let pk = strings.Join(path, KeysIndexSep)
+//@   let pk = PathKey(path)
 //@   internal whole_branch_lower_bound: allstr(k, present(idx, k) && strings.HasPrefix(k, pk) ==> result <= idx[k].GetLowestPriorityValue(branchFilters))
 //@   internal attained_in_branch: result == 2147483647 || exstr(k, present(idx, k) && strings.HasPrefix(k, pk) && idx[k].GetLowestPriorityValue(branchFilters) == result)
 //@   loop 0 invariant $map == idx && result <= 2147483647
@@ -377,3 +384,85 @@ package tree
 //@   loop 1 invariant unsigned_range_bounds: called(URnges_AddRange) ==> callarg(URnges_AddRange, 0, 1) == typeSchema.Range[$i].Min.Value && callarg(URnges_AddRange, 0, 2) == typeSchema.Range[$i].Max.Value
 //@   loop 2 invariant srngesOK(srnges) && len(srnges.rnges) == $n && typeSchema != nil && rangesOK(typeSchema.Range)
 //@   loop 2 invariant signed_range_bounds: called(SRnges_AddRange) ==> callarg(SRnges_AddRange, 0, 1) == sBound(typeSchema.Range[$i].Min) && callarg(SRnges_AddRange, 0, 2) == sBound(typeSchema.Range[$i].Max)
+
+// ---------------------------------------------------------------------------
+// C11 (and leafref navigation, C04): FilterChilds returns list entries only, never the key-level entries above them.
+// lvl(e) is the depth of an entry in the tree; the relation between an entry and its children map is assumed
+// (the child map is filled by newEntry / addChild, which link child.parent to the entry).
+//@ spec lvl(Entry) Int
+//@ iface Entry.getChildren
+//@   noeffect
+//@   ensures one_level_down: allstr(k, present(result, k) ==> result[k] != nil && lvl(result[k]) == lvl(self) + 1)
+
+//@ func (*sharedEntryAttributes).FilterChilds
+//@   props C11 C04
+//@   requires s != nil
+//@   uses Strings: none
+//@   internal only_list_entries: r1 == nil ==> forall(i, 0, len(r0), lvl(r0[i]) == lvl(Entry(s)) + len(schemaKeys))
+//@   loop 0 invariant levels_done: forall(i, 0, len(processEntries), processEntries[i] != nil && lvl(processEntries[i]) == lvl(Entry(s)) + $n)
+//@   loop 0 invariant result_is_last_level: ($n == 0 ==> len(result) == 0) && ($n > 0 ==> result == processEntries)
+//@   loop 1 invariant matches_one_below: baseof(result) != baseof(processEntries) && forall(i, 0, len(result), result[i] != nil && lvl(result[i]) == lvl(Entry(s)) + $n_loop0 + 1)
+//@   loop 1 invariant level_kept: forall(i, 0, len(processEntries), processEntries[i] != nil && lvl(processEntries[i]) == lvl(Entry(s)) + $n_loop0)
+//@   loop 2 invariant childs_one_below: baseof(result) != baseof(processEntries) && forall(i, 0, len(result), result[i] != nil && lvl(result[i]) == lvl(Entry(s)) + $n_loop0 + 1)
+//@   loop 2 invariant level_kept_wildcard: forall(i, 0, len(processEntries), processEntries[i] != nil && lvl(processEntries[i]) == lvl(Entry(s)) + $n_loop0)
+//@   loop 3 invariant childs_one_below_inner: baseof(result) != baseof(processEntries) && forall(i, 0, len(result), result[i] != nil && lvl(result[i]) == lvl(Entry(s)) + $n_loop0 + 1)
+//@   loop 3 invariant level_kept_inner: forall(i, 0, len(processEntries), processEntries[i] != nil && lvl(processEntries[i]) == lvl(Entry(s)) + $n_loop0)
+
+// ---------------------------------------------------------------------------
+// C11: lookups and sets keyed by PathKey
+
+//@ func (*PathSet).AddPath
+//@   props C11
+//@   requires p != nil && p.index != nil
+//@   modifies p.paths, mapof(p.index), allelems(PathSlice)
+//@   ensures member_afterwards: present(p.index, PathKey(path))
+//@   ensures new_path_is_appended: !old(present(p.index, PathKey(path))) ==> len(p.paths) == old(len(p.paths)) + 1 && p.paths[old(len(p.paths))] == path
+//@   ensures known_path_changes_nothing: old(present(p.index, PathKey(path))) ==> len(p.paths) == old(len(p.paths))
+//@   ensures earlier_paths_kept: forall(i, 0, old(len(p.paths)), p.paths[i] == old(p.paths[i]))
+//@   ensures other_keys_untouched: allstr(k, k != PathKey(path) ==> present(p.index, k) == old(present(p.index, k)))
+
+//@ func (*TreeCacheClientImpl).IntendedPathExists
+//@   props C11
+//@   requires t != nil && t.intendedStoreIndex != nil
+//@   ensures exact_path_only: r1 == nil && r0 == present(t.intendedStoreIndex, PathKey(path))
+
+// ---------------------------------------------------------------------------
+// C11: tree position -> path. The concrete GetFirstAncestorWithSchema defines the spec functions schemaAncOf /
+// levelsUpOf (its recursion over the parent chain is not verified here).
+//@ func (*sharedEntryAttributes).GetFirstAncestorWithSchema
+//@   trusted defines schemaAncOf / levelsUpOf
+//@   noeffect
+//@   ensures r0 == schemaAncOf(Entry(s)) && r1 == levelsUpOf(Entry(s))
+
+// A key level is named after the key of the first ancestor with a schema that has its distance as position:
+// level k below the list takes the k-th key of the schema's key list (the key statement order; see the known finding
+// on lists whose key statement is not alphabetical).
+// Tree shape assumed at the call site (SdcpbPathInternal calls it on entries without a schema below the root): an
+// entry without a schema is a key level, i.e. lies 1..len(keys) levels below a list entry with a container schema.
+//@ pred keyLevel(s) = s.schema == nil ==> schemaAncOf(Entry(s)) != nil && (schemaAncOf(Entry(s)).GetSchema() != nil && istype(schemaAncOf(Entry(s)).GetSchema().Schema, *sdcpb.SchemaElem_Container) ==>
+//@            dyn(schemaAncOf(Entry(s)).GetSchema().Schema, *sdcpb.SchemaElem_Container).Container != nil && 1 <= levelsUpOf(Entry(s)) && levelsUpOf(Entry(s)) <= len(dyn(schemaAncOf(Entry(s)).GetSchema().Schema, *sdcpb.SchemaElem_Container).Container.Keys) &&
+//@            dyn(schemaAncOf(Entry(s)).GetSchema().Schema, *sdcpb.SchemaElem_Container).Container.Keys[levelsUpOf(Entry(s)) - 1] != nil)
+//@ func (*sharedEntryAttributes).getKeyName
+//@   props C11
+//@   requires s != nil && keyLevel(s)
+//@   ensures schema_level_has_no_key_name: s.schema != nil ==> r1 != nil
+//@   ensures named_by_position: r1 == nil ==> s.schema == nil && schemaAncOf(Entry(s)) != nil && schemaAncOf(Entry(s)).GetSchema() != nil &&
+//@            istype(schemaAncOf(Entry(s)).GetSchema().Schema, *sdcpb.SchemaElem_Container) &&
+//@            r0 == dyn(schemaAncOf(Entry(s)).GetSchema().Schema, *sdcpb.SchemaElem_Container).Container.Keys[levelsUpOf(Entry(s)) - 1].Name
+
+// The path of an entry is the path of its parent, extended by one element (schema levels) or by one key of the last
+// element (key levels). The recursive call on the parent is assumed to return a usable path (see the iface contract).
+//@ iface Entry.IsRoot
+//@   pure
+//@ iface Entry.SdcpbPathInternal
+//@   ensures parent_path_usable: r1 == nil ==> r0 != nil && forall(i, 0, len(r0.Elem), r0.Elem[i] != nil)
+//@   ensures below_root_has_an_element: r1 == nil && !self.IsRoot() ==> len(r0.Elem) >= 1 && r0.Elem[len(r0.Elem) - 1].Key != nil
+//@ func (*sharedEntryAttributes).SdcpbPathInternal
+//@   props C11
+//@   requires s != nil && keyLevel(s) && (s.schema == nil && s.parent != nil ==> !s.parent.IsRoot())
+//@   ensures root_is_empty: s.parent == nil ==> r1 == nil && r0 != nil && len(r0.Elem) == 0
+//@   ensures schema_level_appends_its_name: r1 == nil && s.parent != nil && s.schema != nil && kind(s.schema.Schema) != 0 ==>
+//@            len(r0.Elem) >= 1 && r0.Elem[len(r0.Elem) - 1] != nil && r0.Elem[len(r0.Elem) - 1].Name == s.pathElemName
+//@   ensures key_level_sets_its_key: r1 == nil && s.parent != nil && s.schema == nil ==>
+//@            len(r0.Elem) >= 1 && r0.Elem[len(r0.Elem) - 1] != nil && present(r0.Elem[len(r0.Elem) - 1].Key, callres(getKeyName, 0, 0)) &&
+//@            r0.Elem[len(r0.Elem) - 1].Key[callres(getKeyName, 0, 0)] == s.pathElemName
